@@ -890,3 +890,60 @@ Example stale_delay_entry_blocks_rearming :
   let w2 := run w [OReq pending []; OReplaceJob delayed_spec; OSyncJob; OReq sync_req []; OFire] in
   st_phase (v_st w2) = PhRestarting /\ st_retry (v_st w2) = 1.
 Proof. vm_compute. repeat split. Qed.
+
+(* ---------- the Running-state decision: the model's closure IS the stated verdict ---------- *)
+Lemma existsb_ext_l : forall {A} (f g : A -> bool) l, (forall x, f x = g x) -> existsb f l = existsb g l.
+Proof. induction l; intros; cbn; auto. rewrite H, IHl; auto. Qed.
+
+Lemma task_short_some : forall sp s, existsb (task_short s) (s_tasks sp) = some_task_short sp (st_tsc s).
+Proof.
+  intros. unfold some_task_short. apply existsb_ext_l. intros t. unfold task_short.
+  destruct (t_min t); auto.
+Qed.
+
+Theorem running_sync_verdict : forall sp s,
+  running_sync sp s = match running_verdict sp (st_cnt s) (st_tsc s) with Some p => set_phase s p | None => s end.
+Proof.
+  intros sp s. unfold running_sync, running_verdict, minsucc_reached. rewrite task_short_some.
+  destruct (total_replicas sp =? 0); auto.
+  destruct (s_minsucc sp) as [m|].
+  - destruct (m <=? cS (st_cnt s)) eqn:E1; auto.
+    destruct (cS (st_cnt s) + cF (st_cnt s) =? total_replicas sp); [|destruct (_ <? _); reflexivity].
+    destruct (_ && _); auto.
+    assert (E2 : (cS (st_cnt s) <? m) = true) by (apply Z.ltb_lt; apply Z.leb_gt in E1; exact E1).
+    rewrite E2. reflexivity.
+  - destruct (cS (st_cnt s) + cF (st_cnt s) =? total_replicas sp); [|destruct (_ <? _); reflexivity].
+    destruct (_ && _); auto. destruct (_ <=? _); reflexivity.
+Qed.
+
+(* Completed is written by a Running job's sync only if minSuccess is reached, or -- whenever
+   job.minAvailable >= the sum of the task minimums -- every task that has a minAvailable (and an
+   entry in the per-task table) shows at least that many succeeded pods *)
+Theorem running_completed_only_if : forall sp s,
+  st_phase s = PhRunning -> st_phase (running_sync sp s) = PhCompleted ->
+  minsucc_reached sp (st_cnt s) = true \/
+  (total_task_min sp <= s_min sp ->
+   forall t m c, In t (s_tasks sp) -> t_min t = Some m -> tsc_get (t_name t) (st_tsc s) = Some c -> m <= cS c).
+Proof.
+  intros sp s Hr Hc. rewrite running_sync_verdict in Hc. unfold running_verdict in Hc.
+  destruct (total_replicas sp =? 0); [rewrite Hr in Hc; discriminate|].
+  destruct (minsucc_reached sp (st_cnt s)) eqn:Em; auto. right. intros Hge t m c Hin Hm Hg.
+  destruct (cS (st_cnt s) + cF (st_cnt s) =? total_replicas sp).
+  - assert (Eg : (total_task_min sp <=? s_min sp) = true) by (apply Z.leb_le; exact Hge).
+    rewrite Eg in Hc. cbn [andb] in Hc.
+    destruct (some_task_short sp (st_tsc s)) eqn:Es; [cbn in Hc; discriminate|].
+    destruct (Z_lt_ge_dec (cS c) m) as [Hlt|]; [|lia]. exfalso.
+    assert (X : some_task_short sp (st_tsc s) = true).
+    { unfold some_task_short. apply existsb_exists. exists t. split; auto. rewrite Hm, Hg. apply Z.ltb_lt; exact Hlt. }
+    congruence.
+  - destruct (_ <? _); cbn in Hc; [discriminate|]. rewrite Hr in Hc. discriminate.
+Qed.
+
+(* non-vacuity: tasks a, b with 2 replicas and minAvailable 1, job minAvailable 2 = the sum; both pods
+   of a succeeded, both of b failed: Failed, although the job-wide succeeded count reaches minAvailable *)
+Example running_boundary_example :
+  let sp := mkSpec [mkTask 1 2 (Some 1) [] None; mkTask 2 2 (Some 1) [] None] 2 None 3 [] in
+  let s := mkStatus PhRunning 0 0 2 (mkC 0 0 2 2 0) 0 [(1%positive, mkC 0 0 2 0 0); (2%positive, mkC 0 0 0 2 0)] false false in
+  total_task_min sp = s_min sp /\ st_phase (running_sync sp s) = PhFailed /\
+  st_phase (running_sync (mkSpec (s_tasks sp) 1 None 3 []) s) = PhCompleted.
+Proof. vm_compute. repeat split. Qed.
